@@ -28,21 +28,21 @@ import (
 // ---------- case description ----------
 
 type Case struct {
-	Name      string
-	Seed      int64
-	Workers   int
-	Count     int   // BatchSizeCount
-	Bytes     int   // BatchSizeBytes
-	FlushMs   int   // FlushTimeout
-	Adders    int   // concurrent Add goroutines
-	PerAdder  int   // events per adder
-	MaxSize   int   // event sizes drawn from 0..MaxSize
-	ParentPct int   // % child-parent events
-	ChildPct  int   // % child events
-	OutDelays []int // OutFn delay in µs for batch seq i (cyclic); makes later batches finish first
-	PauseEvery int  // adder pauses (longer than flush) after this many events (0 = never): idle flush
-	Stop      string // "", "gate" (Stop placed inside the send window), "random"
-	StopAfter int    // for random: Stop after this many adds were started
+	Name       string
+	Seed       int64
+	Workers    int
+	Count      int    // BatchSizeCount
+	Bytes      int    // BatchSizeBytes
+	FlushMs    int    // FlushTimeout
+	Adders     int    // concurrent Add goroutines
+	PerAdder   int    // events per adder
+	MaxSize    int    // event sizes drawn from 0..MaxSize
+	ParentPct  int    // % child-parent events
+	ChildPct   int    // % child events
+	OutDelays  []int  // OutFn delay in µs for batch seq i (cyclic); makes later batches finish first
+	PauseEvery int    // adder pauses (longer than flush) after this many events (0 = never): idle flush
+	Stop       string // "", "gate" (Stop placed inside the send window), "random"
+	StopAfter  int    // for random: Stop after this many adds were started
 }
 
 type rec struct {
